@@ -159,6 +159,102 @@ fn run_graph<T: Fl>(ctx: &Ctx, g: &Graph<T>, dense: bool, grid: usize, total: &m
 }
 
 // ---------------------------------------------------------------------------------------
+// transfer curves at the joins, in the component's own scale: for every pair of RGB (or luma) nodes
+// of one graph that differ only in the transfer function, a dense walk around every knee of the two
+// curves (linear and encoded side, +-2 % in 401 steps, + the float neighbours of the knee) and a
+// coarse walk over [0, 1], each channel against tf_b.encode(tf_a.decode(x)). (The XYZ comparison of
+// the edge check cannot resolve the toe: there an encoded error e is only e/16 .. e/4.5 in XYZ.)
+
+fn run_curves<T: Fl>(ctx: &Ctx, g: &Graph<T>, total: &mut Collector) {
+    let sub = format!("curves/{}/{}", g.name, T::NAME);
+    if !ctx.wants(&sub) {
+        return;
+    }
+    let n = g.n();
+    let mut c = Collector::new();
+    let (mut st, mut tr) = (0u64, 0u64);
+    let spec_of = |k: &Kind| -> Option<(pv::refmodel::rgb::RgbSpec, bool)> {
+        match k {
+            Kind::Rgb(s) => Some((*s, false)),
+            Kind::Luma(s) => Some((*s, true)),
+            _ => None,
+        }
+    };
+    for a in 0..n {
+        for b in 0..n {
+            if a == b {
+                continue;
+            }
+            let (Some((sa, la)), Some((sb, lb))) = (spec_of(&g.nodes[a].kind), spec_of(&g.nodes[b].kind)) else { continue };
+            let Some(f) = g.unc[a][b] else { continue };
+            // same primaries and white point (for luma: same white point), same shape: only the curve differs
+            if la != lb || sa.wp != sb.wp || (!la && sa.prim != sb.prim) || sa.tf == sb.tf {
+                continue;
+            }
+            let mut xs: Vec<f64> = (0..=100).map(|k| k as f64 / 100.0).collect();
+            let mut knees: Vec<f64> = vec![];
+            // knees of the source curve on its encoded side, knees of the target curve mapped to the source's scale
+            if let Some(k) = sa.tf.knee_encoded() {
+                knees.push(k);
+            }
+            if let Some(k) = sb.tf.knee_linear() {
+                knees.push(sa.tf.encode(k));
+            }
+            for k in knees {
+                for j in -200..=200 {
+                    xs.push(k * (1.0 + j as f64 * 1e-4));
+                }
+                // geometric approach to the knee from both sides: relative distances 2^-8 .. 2^-40
+                for m in 8..=40 {
+                    let d = k * (0.5f64).powi(m);
+                    xs.push(k - d);
+                    xs.push(k + d);
+                }
+                let kt = T::from64(k);
+                xs.extend([kt.to64(), kt.up().to64(), kt.down().to64(), kt.up().up().to64(), kt.down().down().to64()]);
+            }
+            for x in xs {
+                if !(0.0..=1.0).contains(&x) {
+                    continue;
+                }
+                let xt = T::from64(x);
+                let v = if la { [xt, T::from64(0.0), T::from64(0.0)] } else { [xt, T::from64(1.0 - x), xt] };
+                st += 1;
+                tr += 1;
+                let Ok(r) = pv::catch(|| f(v)) else { continue };
+                let nch = if la { 1 } else { 3 };
+                for ch in 0..nch {
+                    let xin = v[ch].to64();
+                    let want = sb.tf.encode(sa.tf.decode(xin));
+                    let got = r[ch].to64();
+                    // the curve in the working float type: a few roundings of O(1) intermediates + one
+                    // rounding of the input carried through the (at most 16x) slope of the toe
+                    let eps = if T::NAME == "f32" { 6e-8 } else { 1.2e-16 };
+                    let mut t = 40.0 * eps * want.abs().max(0.0625) + 20.0 * eps;
+                    // exactly at a join the published constants of sRGB and the Rec. OETF leave a step of
+                    // <= 3e-8 between the two segments (12.92 * 0.0031308 vs 1.055 * 0.0031308^(1/2.4) - 0.055):
+                    // within 1e-6 (relative) of a knee either segment's value is the standard's
+                    let lin = sa.tf.decode(xin);
+                    let near = |v: f64, k: Option<f64>| k.map(|k| (v - k).abs() <= 1e-6 * k).unwrap_or(false);
+                    if near(xin, sa.tf.knee_encoded()) || near(lin, sb.tf.knee_linear()) {
+                        t += 1e-7;
+                    }
+                    let e = (got - want).abs();
+                    if e <= t {
+                        c.ratio(&sub, e / t, || json!({"path": [g.nodes[a].name, g.nodes[b].name], "x": xin, "got": got, "want": want}));
+                    } else {
+                        c.violation(&format!("C02/curve-at-joins/{}/{}/{}->{}", g.name, T::NAME, g.nodes[a].name, g.nodes[b].name), e, || json!({"sub": "curve", "group": g.name, "float": T::NAME, "path": [g.nodes[a].name, g.nodes[b].name], "channel": ch, "input": hex(&v), "value": to64(v), "observed": got, "expected": {"reference": want, "tol": t}}));
+                    }
+                }
+            }
+        }
+    }
+    c.add(&sub, st, tr, tr, st);
+    total.merge(c);
+    total.exhaustive(&sub, true, "every ordered pair of RGB (luma) nodes of the graph that differ only in the transfer function: 101 points k/100 and, around every knee of the two curves, +-2 % in 401 steps, a geometric approach from both sides (relative distance 2^-8 .. 2^-40) and the float neighbours of the knee; each channel against the composition of the two published curves, in the component's own scale");
+}
+
+// ---------------------------------------------------------------------------------------
 // matrices: palette's hard-coded and derived RGB<->XYZ matrices vs primaries + white point
 
 fn check_matrices(ctx: &Ctx, c: &mut Collector) {
@@ -413,6 +509,16 @@ fn replay(c: &mut Collector, rep: &Value) {
             let ctx = Ctx::from_args("C02").0;
             check_matrices(&ctx, c);
         }
+        "curve" => {
+            let group = case["group"].as_str().unwrap_or("").to_string();
+            let float = case["float"].as_str().unwrap_or("").to_string();
+            let ctx = Ctx { only: Some(format!("curves/{group}/{float}")), ..Ctx::from_args("C02").0 };
+            let mut all = Collector::new();
+            with_graph!(group.as_str(), float.as_str(), |g| run_curves(&ctx, &g, &mut all));
+            let want = rep["signature"].as_str().unwrap_or("").to_string();
+            all.viol.retain(|k, _| *k == want);
+            c.merge(all);
+        }
         _ => {
             let ctx = Ctx::from_args("C02").0;
             check_published(&ctx, c);
@@ -436,6 +542,14 @@ fn real_main() -> i32 {
     check_matrices(&ctx, &mut total);
     let quick = ctx.tier == Tier::Quick;
     let (dense, grid) = if quick { (true, 9) } else { (true, 17) };
+    run_curves(&ctx, &pga::d65_f32(), &mut total);
+    run_curves(&ctx, &pgb::d65_f64(), &mut total);
+    run_curves(&ctx, &pgc::d65cyl_f32(), &mut total);
+    run_curves(&ctx, &pgc::d65cyl_f64(), &mut total);
+    run_curves(&ctx, &pgd::d50_f32(), &mut total);
+    run_curves(&ctx, &pgd::d50_f64(), &mut total);
+    run_curves(&ctx, &pgd::dci_f32(), &mut total);
+    run_curves(&ctx, &pgd::dci_f64(), &mut total);
     run_graph(&ctx, &pga::d65_f32(), dense, grid, &mut total);
     run_graph(&ctx, &pgb::d65_f64(), dense, grid, &mut total);
     run_graph(&ctx, &pgc::d65cyl_f32(), dense, grid, &mut total);
